@@ -89,3 +89,126 @@ fn c11_w_inlinee_found_reachable() {
 
 #[path = "../playback/c11_symbolication.rs"]
 mod playback;
+
+// ---------------------------------------------------------------- fill_symbol: FUNC lookup and PUBLIC fallback
+use breakpad_symbols::verif::SymbolFile;
+use breakpad_symbols::FrameSymbolizer;
+use range_map::Range;
+
+pub fn fixed_random_state() -> std::hash::RandomState {
+    // HashMap::new() reads OS randomness (a foreign function for Kani); the maps stay empty here,
+    // so the keys are irrelevant.  Layout of RandomState is { k0: u64, k1: u64 }.
+    unsafe { std::mem::transmute::<[u64; 2], std::hash::RandomState>([0x0123_4567_89ab_cdef, 0xfedc_ba98_7654_3210]) }
+}
+
+struct Rec {
+    ins: u64,
+    func: Option<(u64, u32)>,
+    calls: u32,
+}
+impl FrameSymbolizer for Rec {
+    fn get_instruction(&self) -> u64 {
+        self.ins
+    }
+    fn set_function(&mut self, _name: &str, base: u64, ps: u32) {
+        self.func = Some((base, ps));
+        self.calls += 1;
+    }
+    fn set_source_file(&mut self, _f: &str, _l: u32, _b: u64) {}
+}
+
+fn func(address: u64, size: u32, ps: u32) -> Function {
+    Function { address, size, parameter_size: ps, name: String::new(), lines: RangeMap::new(), inlinees: Vec::new() }
+}
+
+/// M: 16
+/// F: breakpad_symbols::SymbolFile::fill_symbol (module-base arithmetic, FUNC lookup, PUBLIC fallback incl. the cut-off-by-an-intervening-FUNC rule), find_nearest_public
+/// I: two FUNC records with symbolic non-overlapping address-ordered ranges and parameter sizes, two PUBLIC records with symbolic ordered addresses, module base (full u64), instruction (full u64)
+/// B: 2 FUNC + 2 PUBLIC records; no line records, no inlines, empty name tables, no STACK WIN records
+/// A: FUNC ranges valid, sorted and disjoint (what finish() establishes via into_rangemap_safe, see C08); PUBLICs sorted by address (finish() sorts them); HashMap::new's random keys replaced by constants (maps stay empty)
+/// O: nothing is reported for an instruction below the module base; else the FUNC whose range contains the module-relative address is reported with base = FUNC address + module base and its parameter size; if none contains it, the nearest PUBLIC at or before the address unless a FUNC starts at or after that PUBLIC and at or before the address; a reported base never exceeds the instruction; no overflow for any module base
+#[kani::proof]
+#[kani::unwind(6)]
+#[kani::stub(std::hash::RandomState::new, fixed_random_state)]
+fn c11_q_fill_symbol_func_or_public() {
+    let f0a: u64 = kani::any();
+    let f0s: u32 = kani::any();
+    let f1a: u64 = kani::any();
+    let f1s: u32 = kani::any();
+    kani::assume(f0s > 0 && f1s > 0);
+    let f0e = f0a.checked_add(f0s as u64 - 1);
+    let f1e = f1a.checked_add(f1s as u64 - 1);
+    kani::assume(f0e.is_some() && f1e.is_some() && f0e.unwrap() < u64::MAX && f1e.unwrap() < u64::MAX);
+    let (f0e, f1e) = (f0e.unwrap(), f1e.unwrap());
+    kani::assume(f0e < f1a);
+    let p0: u64 = kani::any();
+    let p1: u64 = kani::any();
+    kani::assume(p0 <= p1);
+    let functions = RangeMap::try_from_iter(vec![(Range::new(f0a, f0e), func(f0a, f0s, 10)), (Range::new(f1a, f1e), func(f1a, f1s, 11))]).unwrap();
+    let sf = SymbolFile {
+        module_id: String::new(),
+        debug_file: String::new(),
+        files: std::collections::HashMap::new(),
+        publics: vec![PublicSymbol { address: p0, name: String::new(), parameter_size: 20 }, PublicSymbol { address: p1, name: String::new(), parameter_size: 21 }],
+        functions,
+        inline_origins: std::collections::HashMap::new(),
+        cfi_stack_info: RangeMap::new(),
+        win_stack_framedata_info: RangeMap::new(),
+        win_stack_fpo_info: RangeMap::new(),
+        url: None,
+        ambiguities_repaired: 0,
+        ambiguities_discarded: 0,
+        corruptions_discarded: 0,
+        cfi_eval_corruptions: 0,
+    };
+    let mbase: u64 = kani::any();
+    let module = minidump::MinidumpModule::new(mbase, 0x1000, "m");
+    let mut fr = Rec { ins: kani::any(), func: None, calls: 0 };
+    sf.fill_symbol(&module, &mut fr);
+    // reference
+    let want: Option<(u64, u32)> = if fr.ins < mbase {
+        None
+    } else {
+        let addr = fr.ins - mbase;
+        if f0a <= addr && addr <= f0e {
+            Some((f0a, 10))
+        } else if f1a <= addr && addr <= f1e {
+            Some((f1a, 11))
+        } else {
+            // nearest PUBLIC at or before addr
+            let cand = if p1 <= addr {
+                Some((p1, 21))
+            } else if p0 <= addr {
+                Some((p0, 20))
+            } else {
+                None
+            };
+            match cand {
+                Some((pa, ps)) => {
+                    let cut = (pa <= f0a && f0a <= addr) || (pa <= f1a && f1a <= addr);
+                    if cut {
+                        None
+                    } else {
+                        Some((pa, ps))
+                    }
+                }
+                None => None,
+            }
+        }
+    };
+    kani::cover!(matches!(want, Some((_, 10))), "first FUNC reported");
+    kani::cover!(matches!(want, Some((_, 21))), "a PUBLIC reported");
+    kani::cover!(want.is_none() && fr.ins >= mbase && p0 <= fr.ins - mbase, "PUBLIC cut off by a FUNC");
+    match (fr.func, want) {
+        (Some((b, ps)), Some((a, wps))) => {
+            assert!(fr.calls == 1);
+            assert!(b == a + mbase);
+            assert!(ps == wps);
+            assert!(b <= fr.ins);
+        }
+        (None, None) => {}
+        _ => assert!(false),
+    }
+    std::mem::forget(sf);
+    std::mem::forget(module);
+}
